@@ -30,6 +30,7 @@ package main
 
 import (
 	"context"
+	"encoding/binary"
 	"encoding/json"
 	"errors"
 	"flag"
@@ -53,6 +54,7 @@ import (
 	"tunnox-core/internal/core/storage"
 	"tunnox-core/internal/core/types"
 	"tunnox-core/internal/packet"
+	"tunnox-core/internal/protocol/adapter"
 	"tunnox-core/internal/protocol/session"
 	vc "tunnox-core/internal/verifharness/common"
 )
@@ -63,18 +65,67 @@ type fconn struct {
 	id     string
 	closed atomic.Bool
 	broken atomic.Bool
+	// adapter mode: the read side is a queue fed by the harness; Read blocks while it is empty
+	adp  bool
+	mu   sync.Mutex
+	cond *sync.Cond
+	q    []byte
+	idle chan struct{} // signalled (capacity 1) whenever the reader is about to block on an empty queue
+}
+
+func newFconn(id string, adp bool) *fconn {
+	f := &fconn{id: id, adp: adp, idle: make(chan struct{}, 1)}
+	f.cond = sync.NewCond(&f.mu)
+	return f
 }
 
 var errClosed = errors.New("verif: transport closed")
 
-func (f *fconn) Read(p []byte) (int, error) { return 0, io.EOF }
+func (f *fconn) Read(p []byte) (int, error) {
+	if !f.adp {
+		return 0, io.EOF
+	}
+	f.mu.Lock()
+	defer f.mu.Unlock()
+	for len(f.q) == 0 && !f.closed.Load() && !f.broken.Load() {
+		select {
+		case f.idle <- struct{}{}:
+		default:
+		}
+		f.cond.Wait()
+	}
+	if f.closed.Load() || f.broken.Load() {
+		return 0, errClosed
+	}
+	n := copy(p, f.q)
+	f.q = f.q[n:]
+	return n, nil
+}
+
+func (f *fconn) feed(b []byte) {
+	f.mu.Lock()
+	f.q = append(f.q, b...)
+	f.cond.Broadcast()
+	f.mu.Unlock()
+}
+
+func (f *fconn) wake() {
+	f.mu.Lock()
+	f.cond.Broadcast()
+	f.mu.Unlock()
+}
+
 func (f *fconn) Write(p []byte) (int, error) {
 	if f.closed.Load() || f.broken.Load() {
 		return 0, errClosed
 	}
 	return len(p), nil
 }
-func (f *fconn) Close() error                       { f.closed.Store(true); return nil }
+func (f *fconn) Close() error {
+	f.closed.Store(true)
+	f.wake()
+	return nil
+}
 func (f *fconn) GetConnectionID() string            { return f.id }
 func (f *fconn) LocalAddr() net.Addr                { return addr("local") }
 func (f *fconn) RemoteAddr() net.Addr               { return addr("10.0.0.1:1") }
@@ -111,6 +162,9 @@ type world struct {
 	timedOut    atomic.Bool
 	streamRace  atomic.Bool // a panic inside StreamProcessor (Close racing WritePacket): not a registry fact
 	cc          *cloudCtl
+	adp         bool // adapter mode: packets and teardown go through the real read loop
+	ctx         context.Context
+	loops       []chan struct{} // adapter mode: done channel of connection c's handleConnection goroutine
 }
 
 type authH struct{ w *world }
@@ -175,7 +229,7 @@ func (a *authH) GetClientConfig(conn session.ControlConnectionInterface) (string
 
 func cid(c int) string { return "c" + strconv.Itoa(c) }
 
-func newWorld(n, m, capc int) *world {
+func newWorld(n, m, capc int, adp bool) *world {
 	ctx, cancel := context.WithCancel(context.Background())
 	st := storage.NewMemoryStorage(ctx)
 	idm := idgen.NewIDManager(st, ctx)
@@ -190,11 +244,14 @@ func newWorld(n, m, capc int) *world {
 	w.accepted = make([]bool, n)
 	w.inflight = make([]*gate, n)
 	for i := range w.tr {
-		w.tr[i] = &fconn{id: cid(i)}
+		w.tr[i] = newFconn(cid(i), adp)
 	}
 	sm.SetAuthHandler(&authH{w})
 	w.cc = &cloudCtl{}
 	sm.SetCloudControl(w.cc)
+	w.adp = adp
+	w.ctx = ctx
+	w.loops = make([]chan struct{}, n)
 	return w
 }
 
@@ -211,8 +268,94 @@ func (w *world) close() {
 	for c := range w.kicks {
 		w.kickEnd(c)
 	}
+	for c, l := range w.loops {
+		if l != nil {
+			w.tr[c].broken.Store(true)
+			w.tr[c].wake()
+			select {
+			case <-l:
+			case <-time.After(5 * time.Second):
+			}
+		}
+	}
 	w.sm.Close()
 	w.cancel()
+}
+
+// ---- adapter mode: connection c is served by the real BaseAdapter.handleConnection (accept,
+// connectionReadLoop, deferred cleanupConnection) on its own goroutine, as the accept loop starts it.
+
+func (w *world) loopAlive(c int) bool {
+	if c >= w.n || w.loops[c] == nil {
+		return false
+	}
+	select {
+	case <-w.loops[c]:
+		return false
+	default:
+		return true
+	}
+}
+
+func (w *world) startLoop(c int) {
+	done := make(chan struct{})
+	w.loops[c] = done
+	go func() {
+		defer close(done)
+		defer w.guard()
+		adapter.VerifHandleConnection(w.ctx, w.sm, w.tr[c])
+	}()
+	w.await(c, nil)
+}
+
+// await: until the read loop of c blocks on an empty queue, ends, or (g != nil) reaches the auth gate
+func (w *world) await(c int, g *gate) bool {
+	var reached chan struct{}
+	if g != nil {
+		reached = g.reached
+	}
+	select {
+	case <-reached:
+		return true
+	case <-w.tr[c].idle:
+	case <-w.loops[c]:
+	case <-time.After(10 * time.Second):
+		w.timedOut.Store(true)
+	}
+	return false
+}
+
+func (w *world) feed(c int, b []byte) {
+	select {
+	case <-w.tr[c].idle:
+	default:
+	}
+	w.tr[c].feed(b)
+}
+
+// settleLoops: every read loop whose transport is closed or broken (and that is not inside a
+// handshake) ends and runs its cleanupConnection
+func (w *world) settleLoops() {
+	for c := 0; c < w.n; c++ {
+		if w.loopAlive(c) && w.inflight[c] == nil && (w.tr[c].closed.Load() || w.tr[c].broken.Load()) {
+			w.tr[c].wake()
+			select {
+			case <-w.loops[c]:
+			case <-time.After(10 * time.Second):
+				w.timedOut.Store(true)
+			}
+		}
+	}
+}
+
+func encodePacket(t packet.Type, body []byte) []byte {
+	if t == packet.Heartbeat {
+		return []byte{byte(t)}
+	}
+	b := make([]byte, 5, 5+len(body))
+	b[0] = byte(t)
+	binary.BigEndian.PutUint32(b[1:5], uint32(len(body)))
+	return append(b, body...)
 }
 
 // kickBegin runs KickOldControlConnection(x, newConnID) up to the point where KickOldConnection has
@@ -319,6 +462,25 @@ func (w *world) handshakeStart(c, x int, t string, tok string, gated bool) {
 	}
 	body, _ := json.Marshal(&packet.HandshakeRequest{ClientID: int64(x), Token: tok, Version: "3", Protocol: "tcp", ConnectionType: ct})
 	pkt := &types.StreamPacket{ConnectionID: cid(c), Packet: &packet.TransferPacket{PacketType: packet.Handshake, Payload: body}, Timestamp: time.Now()}
+	if w.adp {
+		if !w.loopAlive(c) {
+			return // no read loop: the packet cannot arrive (model: connection not found)
+		}
+		g := &gate{reached: make(chan struct{}), release: make(chan struct{}), done: make(chan struct{})}
+		w.mu.Lock()
+		w.gates[cid(c)] = g
+		w.mu.Unlock()
+		w.feed(c, encodePacket(packet.Handshake, body))
+		if w.await(c, g) {
+			w.inflight[c] = g
+		} else {
+			w.mu.Lock()
+			delete(w.gates, cid(c))
+			w.mu.Unlock()
+		}
+		tick()
+		return
+	}
 	if !gated {
 		func() {
 			defer w.guard()
@@ -359,6 +521,10 @@ func (w *world) handshakeFinish(c int) {
 	delete(w.gates, cid(c))
 	w.mu.Unlock()
 	close(g.release)
+	if w.adp {
+		w.await(c, nil)
+		return
+	}
 	select {
 	case <-g.done:
 	case <-time.After(10 * time.Second):
@@ -372,10 +538,21 @@ func (w *world) exec(o op, gated bool) {
 	c := o.a
 	switch o.k {
 	case "A":
-		if c >= w.n || w.accepted[c] {
+		if c >= w.n {
+			return
+		}
+		if w.accepted[c] {
+			// the id is taken (ids are unique, C15): the real call must refuse and change nothing
+			if !w.adp {
+				_, _ = w.sm.AcceptConnection(w.tr[c], w.tr[c])
+			}
 			return
 		}
 		w.accepted[c] = true
+		if w.adp {
+			w.startLoop(c)
+			return
+		}
 		_, _ = w.sm.AcceptConnection(w.tr[c], w.tr[c])
 	case "H":
 		tok := "ok"
@@ -405,11 +582,14 @@ func (w *world) exec(o op, gated bool) {
 		if c < w.n {
 			w.kickEnd(c)
 		}
-	case "XF", "RF", "SF", "BF":
-		// the same operation while the cloud-control store is failing
+	case "XF", "RF", "SF", "BF", "PF":
+		// the same operation (in adapter mode: and the teardowns it triggers) while the cloud-control store is failing
 		w.cc.fail.Add(1)
 		defer w.cc.fail.Add(-1)
 		w.exec(op{k: o.k[:1], a: o.a}, gated)
+		if w.adp {
+			w.settleLoops()
+		}
 	case "S":
 		w.sm.VerifCleanupStale()
 	case "O":
@@ -417,6 +597,11 @@ func (w *world) exec(o op, gated bool) {
 			cc.LastActiveAt = time.Now().Add(-2 * time.Hour)
 		}
 	case "B":
+		if w.adp && w.loopAlive(c) && w.inflight[c] == nil {
+			w.feed(c, encodePacket(packet.Heartbeat, nil))
+			w.await(c, nil)
+			return
+		}
 		_ = w.sm.HandlePacket(&types.StreamPacket{ConnectionID: cid(c), Packet: &packet.TransferPacket{PacketType: packet.Heartbeat}, Timestamp: time.Now()})
 	case "X":
 		_ = w.sm.CloseConnection(cid(c))
@@ -431,6 +616,7 @@ func (w *world) exec(o op, gated bool) {
 	case "P":
 		if c < w.n {
 			w.tr[c].broken.Store(true)
+			w.tr[c].wake()
 		}
 	}
 }
@@ -491,6 +677,18 @@ func (w *world) snapshot() string {
 	}
 	st := w.sm.GetConnectionStats()
 	fmt.Fprintf(&sb, " ct %d %d %d %d %d", w.sm.VerifControlCount(), st.TotalConnections, st.ControlConnections, st.TunnelConnections, w.sm.GetActiveChannels())
+	// the other spellings of the same lookups and counters
+	fmt.Fprintf(&sb, " alt %d %d %d", w.sm.VerifControlListLen(), len(w.sm.ListConnections()), w.sm.GetActiveConnections())
+	for x := 1; x <= w.m; x++ {
+		if ci := w.sm.GetControlConnectionInterface(int64(x)); ci != nil {
+			fmt.Fprintf(&sb, " %s", connIdx(ci.GetConnID()))
+		} else {
+			sb.WriteString(" -")
+		}
+	}
+	for c := 0; c < w.n; c++ {
+		fmt.Fprintf(&sb, " %d", w.sm.GetClientIDByConnectionID(cid(c)))
+	}
 	return sb.String()
 }
 
@@ -541,7 +739,7 @@ func parseOps(toks []string) ([]op, []string) {
 		case "K", "Kb":
 			ops = append(ops, op{k: k, a: atoi(toks[1]), b: atoi(toks[2])})
 			toks = toks[3:]
-		case "Ke", "A", "F", "O", "B", "X", "R", "U", "T", "P", "XF", "RF", "BF":
+		case "Ke", "A", "F", "O", "B", "X", "R", "U", "T", "P", "XF", "RF", "BF", "PF":
 			ops = append(ops, op{k: k, a: atoi(toks[1])})
 			toks = toks[2:]
 		default:
@@ -632,10 +830,13 @@ func runCase(tc *tcase) string {
 func runCaseOnce(tc *tcase) (string, bool) {
 	res := make(chan string, 1)
 	go func() {
-		w := newWorld(tc.n, tc.m, tc.capc)
+		w := newWorld(tc.n, tc.m, tc.capc, tc.kind == "adp")
 		defer w.close()
 		for _, o := range tc.pre {
 			w.exec(o, true)
+			if w.adp {
+				w.settleLoops()
+			}
 		}
 		if len(tc.threads) > 0 {
 			var wg sync.WaitGroup
@@ -838,8 +1039,13 @@ func canonical(seq []op, n int) bool {
 	return true
 }
 
-func genExhaustive(jobs *[]*job, n, m, capc, depth int, full bool) {
+func genExhaustive(jobs *[]*job, kind string, n, m, capc, depth int, full bool) {
 	al := alphabet(n, m, full)
+	if kind == "adp" {
+		for c := 0; c < n; c++ {
+			al = append(al, op{k: "PF", a: c})
+		}
+	}
 	var pre []op
 	for c := 0; c < n; c++ {
 		pre = append(pre, op{k: "A", a: c})
@@ -847,7 +1053,7 @@ func genExhaustive(jobs *[]*job, n, m, capc, depth int, full bool) {
 	var rec func(seq []op)
 	rec = func(seq []op) {
 		if len(seq) > 0 {
-			tc := &tcase{kind: "seq", n: n, m: m, capc: capc, pre: append(append([]op{}, pre...), seq...)}
+			tc := &tcase{kind: kind, n: n, m: m, capc: capc, pre: append(append([]op{}, pre...), seq...)}
 			*jobs = append(*jobs, mkJob(tc, ""))
 		}
 		if len(seq) == depth {
@@ -909,11 +1115,11 @@ func randOp(r *vc.Rand, n, m int, accepted []bool) op {
 	case p < 97:
 		return op{k: "T", a: c}
 	default:
-		return op{k: "P", a: c}
+		return op{k: vc.Pick(r, []string{"P", "P", "PF"}), a: c}
 	}
 }
 
-func genRandom(jobs *[]*job, r *vc.Rand, count int) {
+func genRandom(jobs *[]*job, kind string, r *vc.Rand, count int) {
 	for i := 0; i < count; i++ {
 		n := 2 + r.Intn(3)
 		m := 1 + r.Intn(3)
@@ -934,7 +1140,7 @@ func genRandom(jobs *[]*job, r *vc.Rand, count int) {
 			}
 			ops = append(ops, o)
 		}
-		*jobs = append(*jobs, mkJob(&tcase{kind: "seq", n: n, m: m, capc: capc, pre: ops}, ""))
+		*jobs = append(*jobs, mkJob(&tcase{kind: kind, n: n, m: m, capc: capc, pre: ops}, ""))
 	}
 }
 
@@ -1028,16 +1234,22 @@ func gen(out *vc.Out, r *vc.Rand, thorough bool) {
 	var jobs []*job
 	genWindow(&jobs)
 	if thorough {
-		genExhaustive(&jobs, 3, 2, 0, 4, true)
-		genExhaustive(&jobs, 3, 2, 2, 3, true)
-		genExhaustive(&jobs, 2, 2, 1, 4, false)
-		genRandom(&jobs, r.Fork(), 400000)
+		genExhaustive(&jobs, "seq", 3, 2, 0, 4, true)
+		genExhaustive(&jobs, "seq", 3, 2, 2, 3, true)
+		genExhaustive(&jobs, "seq", 2, 2, 1, 4, false)
+		genRandom(&jobs, "seq", r.Fork(), 400000)
 		genPar(&jobs, r.Fork(), 60000)
+		genExhaustive(&jobs, "adp", 3, 2, 0, 3, true)
+		genExhaustive(&jobs, "adp", 3, 2, 2, 3, false)
+		genRandom(&jobs, "adp", r.Fork(), 150000)
 	} else {
-		genExhaustive(&jobs, 3, 2, 0, 3, true)
-		genExhaustive(&jobs, 3, 2, 2, 2, true)
-		genRandom(&jobs, r.Fork(), 20000)
+		genExhaustive(&jobs, "seq", 3, 2, 0, 3, true)
+		genExhaustive(&jobs, "seq", 3, 2, 2, 2, true)
+		genRandom(&jobs, "seq", r.Fork(), 20000)
 		genPar(&jobs, r.Fork(), 2000)
+		genExhaustive(&jobs, "adp", 3, 2, 0, 2, true)
+		genExhaustive(&jobs, "adp", 2, 2, 1, 3, false)
+		genRandom(&jobs, "adp", r.Fork(), 8000)
 	}
 	runAll(out, jobs)
 }
